@@ -512,6 +512,9 @@ func keOracle(r *rand.Rand, n int, tier string, infile string) (cases int, fails
 					bad("C02 %s (remote key %s) delivered plaintext %q that was sent by key %q (ok=%v) history=%v", tag, keyIndex(s.RemoteKey()), out, k, ok, hist)
 				}
 			} else if err == nil && !isApp {
+				if bytes.Contains(out, []byte("MARKER-")) {
+					bad("C02 application plaintext appears on the transport: %s answered a delivery with %q history=%v", tag, out, hist)
+				}
 				add(out)
 			}
 		}
